@@ -276,5 +276,7 @@ func runC14(r *Run) {
 	r.Check(rounded == "", "C14.tally", fname(rs), "shares compared unrounded", "no rounding between the share computation and the threshold comparison",
 		"the vote shares are rounded ("+rounded+") before being compared with the pass percentage: a proposal just under the threshold passes", p.pos(rs.Pos()))
 	checkOptionsValidated(r, "C14.options", "ValidateProposal", 15)
+	checkGoalBoundary(r)
+	checkFundTotalRead(r)
 	r.Floor("C14.", 45)
 }
